@@ -32,9 +32,10 @@ def sh(cmd, **kw):
 
 
 sh("git -C /repo worktree remove --force %s" % wt)
+sh("rm -rf %s; git -C /repo worktree prune" % wt)
 rc, out = sh("git -C /repo worktree add -q --detach %s HEAD" % wt)
 assert rc == 0, out
-res = {"seed": sid, "property": pid}
+res = {"seed": sid, "property": pid, "repo_commit": sh("git -C /repo rev-parse HEAD")[1].strip()}
 try:
     env = "cd %s && PYTHONPATH=%s" % (wt, wt)
     rc0, out0 = sh("%s timeout 600 /venv/bin/python %s/demo.py" % (env, src))
